@@ -25,13 +25,24 @@ CHECKS = {
          'translator on every run and the model is tied to Category.parse/str by differential execution inside coqc.',
          'Trusted: Coq kernel+vm_compute, model Cat.v (validated by correspondence, not derived), gen_tables.py, wf domain as stated in the theorems.',
          'Coq proof by induction on categories / token texts + correspondence cases + round-trip oracle', 'DESIGN.md §4 C05'),
+ 'C06': ('Machine-checked specification of Unification over the hand-written model Unify.v: success iff shape + all bindings of a variable feature-blind equal (the latest-binding check is closed by '
+         'transitivity of ^) + position-wise feature compatibility, exact error/False conditions (ordered tests), bindings = bound sub-category with only variable features replaced by features of '
+         'the inputs, KeyError for unknown names, no read after failure / before the call, one answer per matcher. Model tied to the real class by 2000+ differential cases per run '
+         '(grammar pattern pairs, random patterns with repeated variables, both and mixed feature systems) and an independent Python restatement; hash-seed reruns.',
+         'Trusted: Coq kernel+vm_compute; model Unify.v (pattern-variable keys (v, index) instead of f-strings: sound for single-letter variables, enforced by the translator); gen_unif.py.',
+         'Coq proof by induction on patterns/dictionaries + differential cases + independent oracle', 'DESIGN.md §4 C06'),
+ 'C14': ('Theorems over the GENERATED grammars (GenEn.v/GenJa.v, re-translated from en.py/ja.py on every run): binary and unary rule application never raises on well-formed categories of one '
+         'feature system, seen-rule filter = unrestricted result or nothing (key with X/nb erased for English, raw pair for Japanese), English results independent of nb, unary rules = the configured '
+         'targets in order. In Gallina the rule functions are functions (no hidden state); reproducibility across processes and PYTHONHASHSEED values, argument immutability and repeatability '
+         'are decided by differential execution (fresh interpreters under 4/16 hash seeds).',
+         'Trusted: translator gen_grammar.py (tied by BinEn/BinJa/UnEn/UnJa cases), Unify.v, Coq kernel.', 'Coq proof over translated grammar + differential cases + multi-process hash-seed oracle', 'DESIGN.md §4 C14'),
  'C09': ('Proved in Coq through the refinement: the score stored in every goal item equals the recursive model score of its derivation (leaf tags + dependency of each non-head child to its '
          'head as the head flags determine + root attachment - penalty per unary node); chart items store inside score/head/span of their derivation. Tree-level oracle recomputes the score '
          'of every returned ScoredTree from its head flags on the real depccg.parsing.run.', ASTAR_NOTE + GLUE_NOTE,
          'Coq refinement proof (stored fields = functions of the derivation) + trace validation + score-recomputation oracle', 'DESIGN.md §4 C09'),
  'C10': ('Proved in Coq for n-best mode (no head-uniformity needed): goal items are popped best first (sorted), each is a complete licensed derivation with its model score, and every complete '
-         'derivation not returned scores no more than every returned one (top-k). PARTIAL: pairwise distinctness and the exact count min(k, #derivations) are not yet theorems; they are decided '
-         'by the exhaustive-enumeration oracle (multiset of scores, duplicates, count) on every run.', ASTAR_NOTE,
+         'derivation not returned scores no more than every returned one (top-k), the returned derivations are pairwise different (each derivation is created at most once), at most k are '
+         'returned and fewer than k only when the agenda is empty and every derivation was returned. The exhaustive-enumeration oracle (multiset of scores, duplicates, count) searches for counterexamples.', ASTAR_NOTE,
          'Coq proof (n-best frontier invariant, sortedness) + trace validation + exhaustive-enumeration oracle', 'DESIGN.md §4 C10'),
  'C12': ('Parser side: theorem that the tree built for a derivation labels each unary/binary node with op_string/op_symbol/head of exactly the rule_id-th cached result (Glue.v tied to '
          'retrieve_tree by exact tree comparison; A* invariants give the index validity). Reader side: guess_combinator_by_triplet is translated from the source on every run and proved to '
